@@ -1,5 +1,6 @@
 import Lean.Data.Json
 import GwModel.Mono
+import GwModel.MergeSchema
 /-! JSON decoding/encoding for the line driver (I/O glue, not part of any theorem). -/
 open Lean
 
@@ -86,5 +87,73 @@ partial def encVal : Val → Json
   | .leaf t => (Json.parse t).toOption.getD (.str t)
   | .list xs => .arr (xs.map encVal).toArray
   | .obj kv => Json.mkObj (kv.map fun (k, v) => (k, encVal v))
+
+end Codec
+
+/-! ### merge inputs: names and signatures are interned to `Nat` (the proven functions work on `Nat`) -/
+namespace Codec
+
+structure Intern where
+  tbl : List (String × Nat) := []
+  rev : Array String := #[]
+
+def Intern.intern (s : String) : StateM Intern Nat := do
+  let st ← MonadState.get
+  match st.tbl.lookup s with
+  | some n => pure n
+  | none =>
+    let n := st.rev.size
+    set { st with tbl := (s, n) :: st.tbl, rev := st.rev.push s }
+    pure n
+
+def Intern.name (st : Intern) (n : Nat) : String := st.rev.getD n "?"
+
+def kindOf (s : String) : Mg.Kind :=
+  match s with
+  | "OBJECT" => .object | "INTERFACE" => .iface | "UNION" => .union | "ENUM" => .enum
+  | "INPUT_OBJECT" => .input | _ => .scalar
+
+def kindName : Mg.Kind → String
+  | .object => "OBJECT" | .iface => "INTERFACE" | .union => "UNION" | .enum => "ENUM"
+  | .input => "INPUT_OBJECT" | .scalar => "SCALAR"
+
+def decFields (js : List Json) : StateM Intern (List Mg.Field) :=
+  js.mapM fun f => do
+    let n ← Intern.intern (getStr f "name")
+    let s ← Intern.intern ("sig:" ++ getStr f "sig")
+    pure { name := n, sig := s }
+
+def decDef (j : Json) : StateM Intern Mg.Def := do
+  let n ← Intern.intern (getStr j "name")
+  let fs ← decFields (getArr j "fields")
+  let is ← (strList j "ifaces").mapM Intern.intern
+  pure { name := n, kind := kindOf (getStr j "kind"), fields := fs, ifaces := is }
+
+def decSchema (j : Json) : StateM Intern MergeS.Schema := do
+  let ts ← (getArr j "types").mapM decDef
+  let ds ← (getArr j "directives").mapM decDef
+  pure { types := ts, directives := ds }
+
+def sortStrs (l : List String) : List String := (l.toArray.qsort (· < ·)).toList
+
+def encDef (st : Intern) (d : Mg.Def) : Json :=
+  let fs := sortStrs (d.fields.map fun f => st.name f.name ++ " " ++ st.name f.sig)
+  Json.mkObj [("name", .str (st.name d.name)), ("kind", .str (kindName d.kind)),
+    ("fields", .arr (fs.map Json.str).toArray),
+    ("ifaces", .arr ((sortStrs (d.ifaces.map st.name)).map Json.str).toArray)]
+
+def encMerged (st : Intern) (m : MergeS.Merged) : Json :=
+  let pairs (l : List (Nat × List Nat)) : Json :=
+    Json.mkObj ((l.filter fun (_, vs) => !vs.isEmpty).map fun (k, vs) => (st.name k, Json.arr ((sortStrs ((vs.map st.name).eraseDups)).map Json.str).toArray))
+  Json.mkObj [
+    ("types", Json.mkObj (m.types.map fun d => (st.name d.name, encDef st d))),
+    ("directives", Json.mkObj (m.directives.map fun d => (st.name d.name, encDef st d))),
+    ("possible", pairs m.possible), ("implements", pairs m.implements)]
+
+def runMerge (j : Json) : Json :=
+  let (srcs, st) := ((getArr j "schemas").mapM decSchema).run {}
+  match MergeS.mergeSchemas srcs with
+  | some m => Json.mkObj [("ok", encMerged st m)]
+  | none => Json.mkObj [("err", .str "incompatible")]
 
 end Codec
